@@ -176,9 +176,10 @@ end Generic
 
 /-! ### Myers middle snake (`middle`) on arrays -/
 
-/-- Everything of `middle` before the snake re-check: returns `(x2, y2, maxSnake)`.
-`none` = `log.Fatal("no snake")` or a negative coordinate. Fresh zeroed buffers. -/
-def middleRawArr {α : Type} [DecidableEq α] (a b : Array α) : Option (Nat × Nat × Nat) := Id.run do
+/-- First transcription of `middle` (imperative loops). Kept only as an executable cross-check of
+the recursive formulation `middleRawArr` below (the driver compares both on every `mid` case);
+no theorem is about this function. -/
+def middleRawArrLoop {α : Type} [DecidableEq α] (a b : Array α) : Option (Nat × Nat × Nat) := Id.run do
   let m : Int := a.size
   let n : Int := b.size
   let delta : Int := n - m
@@ -246,6 +247,124 @@ def middleRawArr {α : Type} [DecidableEq α] (a b : Array α) : Option (Nat × 
     pstart := start
     plimit := limit
   return none
+
+/-! The same search written with structural recursion (this is the model the theorems are about).
+Values of `x` are never negative in the Go code, so the `V` arrays hold `Nat`; diagonals `k` are
+`Int`; `v[base+k]` is `v.getD (vidx base k) 0`, an out-of-range store is dropped (Go would panic). -/
+
+/-- `for x < m && y < n && eq(x, y) { x++; y++ }` on diagonal `k` (`y = x - k`). -/
+def slide (eqAt : Nat → Nat → Bool) (m n : Nat) (k : Int) : Nat → Nat → Nat
+  | 0, x => x
+  | fuel + 1, x =>
+    if x < m ∧ 0 ≤ (x : Int) - k ∧ ((x : Int) - k).toNat < n ∧ eqAt x ((x : Int) - k).toNat = true then
+      slide eqAt m n k fuel (x + 1)
+    else x
+
+/-- index `base+k` -/
+def vidx (base : Nat) (k : Int) : Nat := ((base : Int) + k).toNat
+
+/-- the `if k == -d || k != d && v[base+k-1] < v[base+k+1] { x = v[base+k+1] } else { x = v[base+k-1] + 1 }` -/
+def pickX (v : Array Nat) (base d : Nat) (k : Int) : Nat :=
+  if k = -(d : Int) ∨ (k ≠ (d : Int) ∧ v.getD (vidx base (k - 1)) 0 < v.getD (vidx base (k + 1)) 0) then
+    v.getD (vidx base (k + 1)) 0
+  else v.getD (vidx base (k - 1)) 0 + 1
+
+/-- constants of one call of `middle` -/
+structure MidEnv where
+  m : Nat
+  n : Nat
+  base : Nat
+  delta : Int
+  odd : Bool
+  /-- `a[x] == b[y]` -/
+  eqF : Nat → Nat → Bool
+  /-- `a[m-x-1] == b[n-y-1]` -/
+  eqR : Nat → Nat → Bool
+
+/-- The loop `for k := start; k <= limit; k += 2 { x := …; slide; v[base+k] = x; if check … return }`
+shared by the forward and the reverse path of round `d`: `r` diagonals left, current diagonal `k`;
+`check k x` is the overlap test (`some` = `return`). -/
+def diagLoop (eqAt : Nat → Nat → Bool) (m n base d : Nat)
+    (check : Int → Nat → Option (Int × Int × Int)) :
+    Nat → Int → Array Nat → Array Nat × Option (Int × Int × Int)
+  | 0, _, v => (v, none)
+  | r + 1, k, v =>
+    let x := slide eqAt m n k (m + 1) (pickX v base d k)
+    let v := v.setIfInBounds (vidx base k) x
+    match check k x with
+    | some res => (v, some res)
+    | none => diagLoop eqAt m n base d check r (k + 2) v
+
+/-- overlap test of the forward path: `if odd { if k2 := -delta - k; k2 >= pstart && k2 <= plimit {
+x2 := m - v2[base+k2]; if x >= x2 { return x2, x2 - k, x - x2 (before the re-check) } } }` -/
+def fwdCheck (e : MidEnv) (pstart plimit : Int) (v2 : Array Nat) (k : Int) (x : Nat) :
+    Option (Int × Int × Int) :=
+  let k2 := -e.delta - k
+  let x2 : Int := (e.m : Int) - (v2.getD (vidx e.base k2) 0 : Nat)
+  if e.odd = true ∧ pstart ≤ k2 ∧ k2 ≤ plimit ∧ x2 ≤ (x : Int) then
+    some (x2, x2 - k, (x : Int) - x2)
+  else none
+
+/-- overlap test of the reverse path: `if !odd { if k1 := -delta - k; k1 >= start && k1 <= limit {
+x1 := v1[base+k1]; if x2 := m - x; x1 >= x2 { return x2, n - y, x1 - x2 } } }` -/
+def revCheck (e : MidEnv) (start limit : Int) (v1 : Array Nat) (k : Int) (x : Nat) :
+    Option (Int × Int × Int) :=
+  let k1 := -e.delta - k
+  let x1 : Int := (v1.getD (vidx e.base k1) 0 : Nat)
+  let x2 : Int := (e.m : Int) - (x : Int)
+  if e.odd = false ∧ start ≤ k1 ∧ k1 ≤ limit ∧ x2 ≤ x1 then
+    some (x2, (e.n : Int) - ((x : Int) - k), x1 - x2)
+  else none
+
+/-- "Forward path" loop of round `d`. -/
+def fwdLoop (e : MidEnv) (d : Nat) (pstart plimit : Int) (v2 : Array Nat) :
+    Nat → Int → Array Nat → Array Nat × Option (Int × Int × Int) :=
+  diagLoop e.eqF e.m e.n e.base d (fwdCheck e pstart plimit v2)
+
+/-- "Reverse path" loop of round `d`. -/
+def revLoop (e : MidEnv) (d : Nat) (start limit : Int) (v1 : Array Nat) :
+    Nat → Int → Array Nat → Array Nat × Option (Int × Int × Int) :=
+  diagLoop e.eqR e.m e.n e.base d (revCheck e start limit v1)
+
+/-- `start, limit := -d, d; if d > m { limit -= 2*(d-m) }; if d > n { start += 2*(d-n) }` -/
+def roundStart (n d : Nat) : Int := if d > n then -(d : Int) + 2 * ((d : Int) - n) else -(d : Int)
+def roundLimit (m d : Nat) : Int := if d > m then (d : Int) - 2 * ((d : Int) - m) else (d : Int)
+/-- number of iterations of `for k := start; k <= limit; k += 2` -/
+def roundCount (start limit : Int) : Nat := if limit < start then 0 else ((limit - start) / 2).toNat + 1
+
+/-- the loop `for d := 0; d <= max; d++`: `r` rounds left -/
+def midLoop (e : MidEnv) : Nat → Nat → Array Nat → Array Nat → Int → Int → Option (Int × Int × Int)
+  | 0, _, _, _, _, _ => none
+  | r + 1, d, v1, v2, pstart, plimit =>
+    let start := roundStart e.n d
+    let limit := roundLimit e.m d
+    let cnt := roundCount start limit
+    match fwdLoop e d pstart plimit v2 cnt start v1 with
+    | (_, some res) => some res
+    | (v1, none) =>
+      match revLoop e d start limit v1 cnt start v2 with
+      | (_, some res) => some res
+      | (v2, none) => midLoop e r (d + 1) v1 v2 start limit
+
+def midEnv {α : Type} [DecidableEq α] (a b : Array α) : MidEnv where
+  m := a.size
+  n := b.size
+  base := (a.size + b.size + 2) / 2
+  delta := (b.size : Int) - a.size
+  odd := ((b.size : Int) - a.size) % 2 != 0
+  eqF := fun x y => decide (a[x]? = b[y]?)
+  eqR := fun x y => decide (a[a.size - x - 1]? = b[b.size - y - 1]?)
+
+/-- Everything of `middle` before the snake re-check: returns `(x2, y2, maxSnake)`.
+`none` = `log.Fatal("no snake")` or a negative coordinate. Fresh zeroed buffers
+(`v1 = buf[:2*max]`, `v2 = buf[2*max:]`, `len(buf) = 2*(m+n+2)`). -/
+def middleRawArr {α : Type} [DecidableEq α] (a b : Array α) : Option (Nat × Nat × Nat) :=
+  let e := midEnv a b
+  let mx := e.base
+  match midLoop e (mx + 1) 0 (Array.replicate (2 * mx) 0)
+      (Array.replicate (2 * (a.size + b.size + 2) - 2 * mx) 0) 0 0 with
+  | none => none
+  | some (x, y, s) => if x < 0 ∨ y < 0 ∨ s < 0 then none else some (x.toNat, y.toNat, s.toNat)
 
 section Generic2
 variable {α : Type} [DecidableEq α]
